@@ -1283,6 +1283,13 @@ async fn run_c13<C: Coll>(id: &str, script: &[String], r: &mut Rng, st: &mut Sta
                         if is_mirror { "mirror" } else { "hand" }
                     );
                     st.hit(&format!("sub2_{}_{}_{}", w[1], w[2], w[3]));
+                    let src_done = match holders.iter().find(|(s, _)| *s == src) {
+                        Some((_, Holder::Mirror(m))) => matches!(C::borrow(m).await, Ok((_, _, true))),
+                        _ => false,
+                    };
+                    if src_done && incr && is_mirror {
+                        f13.insert(sid);
+                    }
                     if is_mirror {
                         holders.push((sid, Holder::Mirror(C::mirror(sub, 1_000_000))));
                     } else {
